@@ -45,6 +45,10 @@ DOCS = {
         "b": {"oneOf": [{"not": {"type": "null"}}, False, True], "allOf": [{"minimum": 1}]},
         "c": {"type": "object", "title": "Inner", "additionalProperties": {"type": "array", "items": [{"type": "integer"}], "additionalItems": False}}},
         "required": ["a", "zz", "b"], "dependencies": {"a": ["b", "c"], "b": {"required": ["c", "a"]}}},
+    "many_schema_dependencies": {"type": "object", "title": "Root", "dependencies": {
+        "d3": {"type": "object", "title": "Dep", "required": ["x"]}, "d1": {"type": "object", "title": "Dep", "required": ["y"]},
+        "d2": {"type": "object", "title": "Dep", "required": ["z"]}, "l1": ["d1", "d2"], "d4": {"minProperties": 2}},
+        "patternProperties": {"^c": {"type": "object", "title": "Pat"}, "^a": {"type": "object", "title": "Pat", "required": ["q"]}, "^b": {"type": "integer"}}},
     "undeclared_required_and_sets": {"type": "object", "title": "Root", "properties": {"a": {"type": "integer"},
                                      "o": {"type": "object", "title": "Inner", "required": ["k3", "k1", "k2"], "dependencies": {"k1": ["k2", "k3", "k0"]}, "enum": [{"k1": 1}, {"k2": 2}, {"k3": 3}]}},
                                      "required": ["z1", "a", "z2", "z3", "o"], "patternProperties": {"^p": {"type": "integer"}, "^q": {"type": "string"}, "^r": {"type": "null"}},
@@ -220,8 +224,11 @@ def scan_set_sites(root="/repo/statham"):
                 if kind is None:
                     continue
                 where = "%s:%d: %s" % (os.path.relpath(path, "/repo"), node.lineno, ast.get_source_segment(src, node))
-                if kind == "set":
-                    covered.append(where)  # reached by the module-global shim
+                if kind in ("set", "literal"):
+                    # set(...) calls are reached by the module-global shim directly; set displays and set
+                    # comprehensions are rewritten into such calls when the worker imports statham
+                    # (vf.prelude.install_set_rewrite)
+                    covered.append(where)
                     continue
                 # literal / comprehension / frozenset: must be in an order-insensitive context
                 cur, par = node, parents.get(node)
@@ -262,7 +269,7 @@ def harnesses(ctx) -> List[H]:
     pre = ["0 <= ka1 < 12", "0 <= kb1 < 2", "0 <= ka2 < 12", "0 <= kb2 < 2"]
     for name in DOCS:
         hs.append(mk(f"c09_{name}", "ka1: int, kb1: int, ka2: int, kb2: int", pre, f"return deterministic({name!r}, ka1, kb1, ka2, kb2)", timeout=400, group="oracle",
-                     tier="quick" if name in ("same_title_two_keywords", "definitions", "imports_many_kinds", "undeclared_required_and_sets") else "thorough",
+                     tier="quick" if name in ("same_title_two_keywords", "definitions", "imports_many_kinds", "undeclared_required_and_sets", "many_schema_dependencies") else "thorough",
                      covers=f"document {name}: outputs equal under two symbolic set-order oracles"))
     hs.append(mk("c09__oracle_active", "ka: int, kb: int", ["0 <= ka < 6", "0 <= kb < 6"], "return not oracle_active('same_title_two_keywords', ka, kb)", kind="witness", timeout=60))
     return hs
